@@ -1,4 +1,8 @@
 use bytes::{Buf, BufMut, Bytes, BytesMut};
+use selium_std::errors::ProtocolError;
+use std::mem::size_of;
+
+const LEN_MARKER_SIZE: usize = size_of::<u64>();
 
 pub fn encode_message_batch(batch: Vec<Bytes>) -> Bytes {
     let mut bytes = BytesMut::new();
@@ -14,15 +18,35 @@ pub fn encode_message_batch(batch: Vec<Bytes>) -> Bytes {
     bytes.into()
 }
 
-pub fn decode_message_batch(mut bytes: Bytes) -> Vec<Bytes> {
+pub fn decode_message_batch(mut bytes: Bytes) -> Result<Vec<Bytes>, ProtocolError> {
+    if bytes.len() < LEN_MARKER_SIZE {
+        return Err(ProtocolError::MalformedBatch);
+    }
+
     let num_of_messages = bytes.get_u64();
+
+    // Every message carries at least its own length marker, so a count that exceeds the
+    // remaining input cannot be honest. Refuse it before allocating anything.
+    if num_of_messages > (bytes.len() / LEN_MARKER_SIZE) as u64 {
+        return Err(ProtocolError::MalformedBatch);
+    }
+
     let mut messages = Vec::with_capacity(num_of_messages as usize);
 
     for _ in 0..num_of_messages {
+        if bytes.len() < LEN_MARKER_SIZE {
+            return Err(ProtocolError::MalformedBatch);
+        }
+
         let message_len = bytes.get_u64();
+
+        if message_len > bytes.len() as u64 {
+            return Err(ProtocolError::MalformedBatch);
+        }
+
         let message_bytes = bytes.split_to(message_len as usize);
         messages.push(message_bytes);
     }
 
-    messages
+    Ok(messages)
 }
